@@ -82,7 +82,7 @@ impl Engine {
                 }
                 Err(RecvTimeoutError::Timeout) => return Err(Fail::Timeout),
                 Err(RecvTimeoutError::Disconnected) => {
-                    let tail: Vec<String> = out.iter().rev().take(2).rev().map(|l| if l.len() > 120 { format!("{}...", &l[..120]) } else { l.clone() }).collect();
+                    let tail: Vec<String> = out.iter().rev().take(2).rev().map(|l| l.chars().take(120).collect::<String>()).collect();
                     return Err(Fail::Died(format!("{} (after {} lines of output, the last ones: {:?})", self.status_text(), out.len(), tail)));
                 }
             }
